@@ -274,3 +274,88 @@ def run(run: common.Run):
         run.sample(dict(history=case, request=line, impl=impl), 3)
         shutil.rmtree(d, ignore_errors=True)
     run.compare_lines(cases, lines, impls)
+    multi_source_cli(run, tmp, pair, src, ref, fresh_cli)
+
+
+def sig_px(path):
+    """pixels and masks only (the FUSE_* tags name the input files, which differ between directories)"""
+    with rio.Env(GDAL_TIFF_INTERNAL_MASK=True):
+        with rio.open(path) as ds:
+            h = hashlib.sha1()
+            h.update(np.nan_to_num(ds.read(), nan=-12345.0).tobytes())
+            h.update(ds.read_masks().tobytes())
+            return h.hexdigest()
+
+
+def tree_state(root):
+    out = {}
+    for p in sorted(pathlib.Path(root).rglob('*')):
+        if p.is_file():
+            st = p.stat()
+            out[str(p.relative_to(root))] = (hashlib.sha1(p.read_bytes()).hexdigest(), st.st_mtime_ns, st.st_size)
+    return out
+
+
+def multi_source_cli(run, tmp, pair, src, ref, fresh_cli):
+    """
+    One `homonim fuse` call with several source images in different directories: without --out-dir every corrected image
+    belongs beside its own source, with --out-dir all of them in that directory; nothing else may appear or change, an
+    existing output is refused without -o, and each output equals what a fresh single run produces.
+    """
+    from click.testing import CliRunner
+    from homonim import cli, utils as hu
+    from homonim.enums import ProcCrs
+    cfg = CONFIGS[0]
+    post = hu.create_out_postfix(ProcCrs.ref if src.px <= ref.px else ProcCrs.src, cfg['model'], cfg['kernel'])
+    if 0 not in fresh_cli:
+        return
+    fresh_px = sig_px(tmp / 'freshcli0' / (pair.src_path.stem + post))
+    for k, (same_names, out_dir) in enumerate([(True, False), (False, False), (False, True)]):
+        root = tmp / f'multi{k}'
+        (root / 'day1').mkdir(parents=True)
+        (root / 'day2').mkdir()
+        (root / 'refs').mkdir()
+        (root / 'out').mkdir()
+        n1, n2 = ('a.tif', 'a.tif') if same_names else ('a.tif', 'b.tif')
+        shutil.copy(pair.src_path, root / 'day1' / n1)
+        shutil.copy(pair.src_path, root / 'day2' / n2)
+        shutil.copy(pair.ref_path, root / 'refs' / 'ref.tif')
+        base = ['fuse', str(root / 'day1' / n1), str(root / 'day2' / n2), str(root / 'refs' / 'ref.tif'), '-m', cfg['model'], '-k',
+                str(cfg['kernel'][0]), str(cfg['kernel'][1]), '-nbo', '-t', '1'] + (['-od', str(root / 'out')] if out_dir else [])
+        exp_outs = ({f'out/{pathlib.Path(n1).stem}{post}', f'out/{pathlib.Path(n2).stem}{post}'} if out_dir else
+                    {f'day1/{pathlib.Path(n1).stem}{post}', f'day2/{pathlib.Path(n2).stem}{post}'})
+        case = dict(i=600_000 + k, op='cli, several sources', same_names=same_names, out_dir=out_dir)
+        for step, extra in enumerate(([], [], ['-o'])):
+            before = tree_state(root)
+            with warnings.catch_warnings():
+                warnings.simplefilter('ignore')
+                res = CliRunner().invoke(cli.cli, base + extra)
+            after = tree_state(root)
+            run.evaluations += 1
+            run.hist['cli calls with several sources'] += 1
+            sub = dict(case, step=step, args=' '.join(extra))
+            changed = [n for n in before if n not in exp_outs and after.get(n) != before[n]]
+            new = [n for n in after if n not in before and n not in exp_outs and not n.endswith(SIDECARS)]
+            if changed or new:
+                run.fail(sub, f'the call touched files that are not its outputs: changed {changed}, created {new} (outputs belong at '
+                         f'{sorted(exp_outs)})', signature=dict(kind='stray-files' if new else 'touched-other'))
+                break
+            if step == 1:       # outputs exist, no -o: refused, nothing changes
+                if res.exit_code == 0 or after != before:
+                    run.fail(sub, f'a second call without -o exited {res.exit_code} and changed {[n for n in after if after[n] != before.get(n)]}',
+                             signature=dict(kind='clobbered'))
+                    break
+                continue
+            if res.exit_code != 0:
+                run.fail(sub, f'the call exited {res.exit_code} ({str(res.exception)[:80]}) although no requested output existed or -o was '
+                         f'given', signature=dict(kind='spurious-refusal'))
+                break
+            missing = [n for n in exp_outs if n not in after]
+            if missing:
+                run.fail(sub, f'requested outputs are missing: {missing}', signature=dict(kind='output-missing'))
+                break
+            wrong = [n for n in exp_outs if sig_px(root / n) != fresh_px]
+            if wrong:
+                run.fail(sub, f'outputs differ from what a fresh single run produces: {wrong}', signature=dict(kind='history-dependent'))
+                break
+        shutil.rmtree(root, ignore_errors=True)
